@@ -108,6 +108,7 @@ type Obs struct {
 	LeafEvents    map[string][]string
 	ProbeDelivered map[string]bool
 	HistDone      bool
+	HistDoneAtRead bool // the whole server history had been applied when the observer looked
 }
 
 type Inst struct {
@@ -279,6 +280,7 @@ func (in *Inst) Run() {
 	// the observer
 	vs.SleepIdle(c.ReadAt)
 	in.O.ObserverRan = true
+	in.O.HistDoneAtRead = in.O.HistDone
 	in.O.Clock = vs.ClockHere()
 	if l, err := ctrl.Cache().List(); err != nil {
 		in.O.CacheErr = err.Error()
